@@ -33,6 +33,9 @@ type drvScenario struct {
 	// file), then execute the SAME statement again and record its columns and rows
 	Between []string `json:"between,omitempty"`
 	DelayUs int      `json:"delay_us,omitempty"` // every page read of the statement's handle takes this long
+	// Overlap: two result sets of the same query open at the same time on ONE connection ("conn": sql.Conn, "tx": sql.Tx):
+	// the first is advanced one row, then the second is opened and drained, then the first is drained
+	Overlap string `json:"overlap,omitempty"`
 }
 
 type drvResult struct {
@@ -52,7 +55,9 @@ type drvResult struct {
 	CloseReads int `json:"close_reads"`
 	// second execution of a prepared statement after the command in Between
 	Again map[string]interface{} `json:"again,omitempty"`
-	Gor   []int                  `json:"goroutines"`
+	// both result sets of an Overlap scenario
+	Over map[string]interface{} `json:"over,omitempty"`
+	Gor  []int                  `json:"goroutines"`
 }
 
 var (
@@ -156,6 +161,10 @@ func runDriverScenario(s drvScenario) (res drvResult) {
 	base := runtime.NumGoroutine()
 	ctx, cancel := context.WithCancel(context.Background())
 	defer cancel()
+	if s.Overlap != "" {
+		res.Over = runOverlap(ctx, db, s)
+		return
+	}
 	var rows *sql.Rows
 	var stmt *sql.Stmt
 	if s.Prepared {
@@ -291,6 +300,70 @@ func runDriverScenario(s drvScenario) (res drvResult) {
 	time.Sleep(3 * time.Millisecond)
 	res.Late = pagerEvents() != after
 	return
+}
+
+type querier interface {
+	QueryContext(ctx context.Context, query string, args ...interface{}) (*sql.Rows, error)
+}
+
+func drainAll(rows *sql.Rows) ([][]jval, string) {
+	cols, _ := rows.Columns()
+	var out [][]jval
+	for rows.Next() {
+		dest := make([]interface{}, len(cols))
+		ptrs := make([]interface{}, len(cols))
+		for i := range dest {
+			ptrs[i] = &dest[i]
+		}
+		if err := rows.Scan(ptrs...); err != nil {
+			return out, "scan: " + err.Error()
+		}
+		for i, v := range dest {
+			if b, ok := v.([]byte); ok {
+				dest[i] = append([]byte{}, b...)
+			}
+		}
+		out = append(out, encVals(dest))
+	}
+	if rows.Err() != nil {
+		return out, rows.Err().Error()
+	}
+	return out, ""
+}
+
+func runOverlap(ctx context.Context, db *sql.DB, s drvScenario) map[string]interface{} {
+	var q querier
+	switch s.Overlap {
+	case "tx":
+		tx, err := db.BeginTx(ctx, nil)
+		if err != nil {
+			return map[string]interface{}{"begin_err": err.Error()}
+		}
+		defer tx.Rollback()
+		q = tx
+	default:
+		conn, err := db.Conn(ctx)
+		if err != nil {
+			return map[string]interface{}{"conn_err": err.Error()}
+		}
+		defer conn.Close()
+		q = conn
+	}
+	rows1, err := q.QueryContext(ctx, s.Query)
+	if err != nil {
+		return map[string]interface{}{"err1": err.Error()}
+	}
+	defer rows1.Close()
+	first := rows1.Next()
+	rows2, err := q.QueryContext(ctx, s.Query)
+	if err != nil {
+		return map[string]interface{}{"err2": err.Error(), "first": first}
+	}
+	out2, e2 := drainAll(rows2)
+	rows2.Close()
+	// the first result set goes on where it was: its first row was consumed by Next above (not scanned)
+	out1, e1 := drainAll(rows1)
+	return map[string]interface{}{"rows2": out2, "err2": e2, "rest1": len(out1), "err1": e1, "first": first}
 }
 
 // harness driver <in> <out>
